@@ -1023,6 +1023,9 @@ type c20ACase struct {
 	Prefix string `json:"prefix"`
 	Kind   string `json:"kind"` // dist | timing | count | gauge
 	ID     int    `json:"id"`
+	// Cycles: completed Start..Stop periods the registry has been through before the metric is produced (Stop ends
+	// the polling, not the registry: samples are forwarded as before, and a later Start polls again)
+	Cycles int `json:"cycles,omitempty"`
 }
 
 func runC20A(_ *testing.T, c c20ACase) kit.Outcome {
@@ -1036,17 +1039,29 @@ func runC20A(_ *testing.T, c c20ACase) kit.Outcome {
 		return kit.Outcome{Harness: err.Error()}
 	}
 	id := fmt.Sprintf("m%d", c.ID)
+	for i := 0; i < c.Cycles; i++ {
+		r.Start()
+		stopRegistry(r)
+	}
+	emit := func() {}
 	switch c.Kind {
 	case "dist":
-		r.RegisterDistribution(id).AddSample(7)
+		l := r.RegisterDistribution(id)
+		emit = func() { l.AddSample(7) }
 	case "timing":
-		r.RegisterTiming(id).AddSample(7)
+		l := r.RegisterTiming(id)
+		emit = func() { l.AddSample(7) }
 	case "count":
-		r.RegisterCount(id).AddSample(7)
+		l := r.RegisterCount(id)
+		emit = func() { l.AddSample(7) }
 	default:
 		r.RegisterGauge(id, func() (float64, bool) { return 7, true })
 		r.Start()
 		defer stopRegistry(r)
+	}
+	emit()
+	if c.Cycles > 0 {
+		return runC20ACycled(c, pc, r, id, emit)
 	}
 	p := c.Prefix
 	if p == "" {
@@ -1083,14 +1098,79 @@ func runC20A(_ *testing.T, c c20ACase) kit.Outcome {
 	return kit.Outcome{Labels: []string{"skipped:no-datagram-within-guard"}} // inconclusive by construction (real clock): a skipped case
 }
 
+// runC20ACycled: the registry has been through Start..Stop before. Absence of a datagram cannot be judged on a real
+// clock by waiting alone, so every round pairs the metric with a control: a metric sent *afterwards* through a fresh
+// registry to the same endpoint. Only when, three rounds in a row, the control arrived and a further 3 s (more than the
+// client's flush and aggregation periods) passed without the metric - which is produced anew in every round - is the
+// metric reported as never forwarded. A round whose control does not arrive makes the case a skipped one.
+func runC20ACycled(c c20ACase, pc net.PacketConn, r core.MetricRegistry, id string, emit func()) kit.Outcome {
+	p := c.Prefix
+	if p == "" {
+		p = "limiter."
+	}
+	if !strings.HasSuffix(p, ".") {
+		p += "."
+	}
+	want := p + id
+	buf := make([]byte, 65536)
+	sawWant := false
+	readUntil := func(deadline time.Time, stop func(name string) bool) bool {
+		for time.Now().Before(deadline) {
+			_ = pc.SetReadDeadline(time.Now().Add(200 * time.Millisecond))
+			n, _, err := pc.ReadFrom(buf)
+			if err != nil {
+				continue
+			}
+			for _, line := range strings.Split(string(buf[:n]), "\n") {
+				name, _, _, ok := parseStatsd(line)
+				if !ok {
+					continue
+				}
+				if name == want {
+					sawWant = true
+				}
+				if stop(name) {
+					return true
+				}
+			}
+			if sawWant {
+				return true
+			}
+		}
+		return false
+	}
+	for round := 0; round < 3; round++ {
+		emit()
+		ctl, err := datadog.NewMetricRegistry(pc.LocalAddr().String(), "ctl", 200*time.Microsecond)
+		if err != nil {
+			return kit.Outcome{Harness: err.Error()}
+		}
+		cid := fmt.Sprintf("c%d", round)
+		ctl.RegisterCount(cid).AddSample(1)
+		got := readUntil(time.Now().Add(20*time.Second), func(name string) bool { return name == "ctl."+cid })
+		if sawWant {
+			return kit.Outcome{NonTrivial: true, Labels: []string{"kind:" + c.Kind, fmt.Sprintf("after-cycles:%d", c.Cycles)}}
+		}
+		if !got {
+			return kit.Outcome{Labels: []string{"skipped:no-control-datagram-within-guard"}}
+		}
+		readUntil(time.Now().Add(3*time.Second), func(string) bool { return false })
+		if sawWant {
+			return kit.Outcome{NonTrivial: true, Labels: []string{"kind:" + c.Kind, fmt.Sprintf("after-cycles:%d", c.Cycles)}}
+		}
+	}
+	return kit.Viol("datadog:not-forwarded-after-stop", "registry built with NewMetricRegistry(addr, prefix %q) after %d completed Start..Stop period(s): the %s %q was produced three times over more than 9 s and never reached the statsd endpoint, while three control metrics sent later through fresh registries all did", c.Prefix, c.Cycles, c.Kind, id)
+}
+
 func TestC20_datadog_address_constructor(t *testing.T) {
 	kit.RequireMode(t, "std")
 	kit.Check(t, kit.Prop[c20ACase]{
 		ID: "C20", Quick: 12, Thor: 300,
-		Rule: "datadog.NewMetricRegistry (own statsd client, UDP listener on loopback) x prefixes (empty = package default, with / without trailing dot) x metric kinds: the metric reaches the endpoint under normalised-prefix + ID; non-trivial = a datagram carrying the metric was observed (cases without loopback UDP or without a datagram within the 20 s guard are skipped and labelled)",
+		Rule: "datadog.NewMetricRegistry (own statsd client, UDP listener on loopback) x prefixes (empty = package default, with / without trailing dot) x metric kinds x 0-2 completed Start..Stop periods beforehand: the metric reaches the endpoint under normalised-prefix + ID (after a Start..Stop period: judged against control metrics sent later through fresh registries, three rounds); non-trivial = a datagram carrying the metric was observed (cases without loopback UDP or without a datagram within the 20 s guard are skipped and labelled)",
 		Gen: func(t *rapid.T) c20ACase {
 			return c20ACase{Prefix: rapid.SampledFrom([]string{"", "", "p", "p.", "svc.x"}).Draw(t, "prefix"),
-				Kind: rapid.SampledFrom([]string{"dist", "timing", "count", "gauge"}).Draw(t, "kind"), ID: rapid.IntRange(0, 99).Draw(t, "id")}
+				Kind: rapid.SampledFrom([]string{"dist", "timing", "count", "gauge"}).Draw(t, "kind"), ID: rapid.IntRange(0, 99).Draw(t, "id"),
+				Cycles: rapid.SampledFrom([]int{0, 0, 1, 2}).Draw(t, "cycles")}
 		},
 		Run: runC20A, NoShrink: true,
 	})
